@@ -491,7 +491,7 @@ impl TryFrom<&[u8]> for MessageType {
 }
 
 /// A unique transaction identifier for each message and it's (possible) response.
-#[derive(Copy, Clone, Debug, Hash, PartialEq, Eq)]
+#[derive(Copy, Clone, Debug, Hash, PartialEq, Eq, PartialOrd, Ord)]
 pub struct TransactionId {
     id: u128,
 }
